@@ -1,4 +1,5 @@
 import Nri.Model.LibMem
+import Nri.Gen.LibmemSkel
 import Nri.Proofs.LibMem
 import Nri.Proofs.LibMemInv
 import Nri.Proofs.LibMemCommit
@@ -281,5 +282,71 @@ def exampleReq (id : String) (size : Int) : Req :=
 example : WF exampleSt := ⟨rfl, by decide⟩
 example : (exampleSt.Allocate (exampleReq "a" 60)).2 = .ok ⟨1, []⟩ := by rfl
 example : ((exampleSt.Allocate (exampleReq "a" 300)).2) = .error .noMem := by rfl
+
+end Nri.LibMem
+
+/-! ### source shapes the model was written against (LibmemSkel.lean; the regenerated facts must equal them) -/
+namespace Nri.LibMem.Expectgen_libmem_skeletons_ok
+def getOffer : List String := ["err := a.allocate(req)", "if err != nil", "> return nil, err", "updates, err := a.revertJournal(req)", "if err != nil", "> return nil, err", "return a.newOffer(req, updates), nil"]
+def getOfferDefers : List String := ["defer a.validateState(\"GetOffer\")", "defer a.cleanupUnusedZones()"]
+def allocatePub : List String := ["err := a.allocate(req)", "if err != nil", "> return 0, nil, err", "a.invalidateOffers()", "return req.zone, a.commitJournal(req), nil"]
+def allocatePubDefers : List String := ["defer a.validateState(\"Allocate\")", "defer a.cleanupUnusedZones()"]
+def reallocPub : List String := ["req, ok := a.requests[id]", "if !ok", "> return 0, nil, fmt.Errorf(…)", "return a.realloc(req, affinity, types)"]
+def reallocPubDefers : List String := ["defer a.validateState(\"Realloc\")", "defer a.cleanupUnusedZones()"]
+def releasePub : List String := ["req, ok := a.requests[id]", "if !ok", "> return fmt.Errorf(…)", "return a.release(req)"]
+def releasePubDefers : List String := ["defer a.validateState(\"Release\")", "defer a.cleanupUnusedZones()"]
+def allocate : List String := ["if err := a.validateRequest(req); err != nil", "> return err", "if err := a.findInitialZone(req); err != nil", "> return err", "if err := a.ensureNormalMemory(req); err != nil", "> return err", "if err := a.startJournal(); err != nil", "> return err", "a.requests[req.ID()] = req", "a.zoneAssign(req.zone, req)", "return a.handleOvercommit(req.zone)"]
+def allocateDefers : List String := ["defer func", "> if retErr != nil", "> > _, err := a.revertJournal(req)", "> > if err != nil"]
+def realloc : List String := ["if nodes, types, done, err = a.validateRealloc(req, nodes, types); err != nil", "> return 0, nil, err", "if done", "> return req.Zone(), nil, nil", "if err = a.startJournal(); err != nil", "> return 0, nil, err", "newNodes, newTypes := a.expand(req.zone|nodes, types)", "if newNodes == 0", "> return 0, nil, fmt.Errorf(…)", "a.zoneMove(req.zone|nodes|newNodes, req)", "if err := a.handleOvercommit(req.zone | nodes | newNodes); err != nil", "> req.zone = a.users[req.ID()]", "> return 0, nil, fmt.Errorf(…)", "req.zone |= nodes | newNodes", "req.types |= newTypes", "a.invalidateOffers()", "return req.zone, a.commitJournal(req), nil"]
+def reallocDefers : List String := ["defer func", "> if retErr != nil", "> > _, err := a.revertJournal(nil)", "> > if err != nil"]
+def release : List String := ["zone, ok := a.users[req.ID()]", "if !ok", "> return fmt.Errorf(…)", "a.zoneRemove(zone, req.ID())", "delete(a.requests, req.ID())", "a.invalidateOffers()", "return nil"]
+def startJournal : List String := ["if a.journal != nil", "> return fmt.Errorf(…)", "a.journal = &journal{ updates: make(map[string]NodeMask), reverts: make(map[string]NodeMask), }", "return nil"]
+def commitJournal : List String := ["j := a.journal", "a.journal = nil", "delete(j.updates, req.ID())", "if len(j.updates) == 0", "> j.updates = nil", "return j.updates"]
+def revertJournal : List String := ["if a.journal == nil", "> return nil, nil", "j := a.journal", "a.journal = nil", "range j.reverts", "> r, ok := a.requests[id]", "> if !ok", "> > if req == nil || req.ID() != id", "> > > return nil, fmt.Errorf(…)", "> current, ok := a.users[id]", "> if !ok", "> > return nil, fmt.Errorf(…)", "> a.zoneRemove(current, id)", "> if zone != 0", "> > a.zoneAssign(zone, r)", "if req != nil", "> delete(a.requests, req.ID())", "return j.updates, nil"]
+def journalAssign : List String := ["if j == nil", "> return", "j.updates[id] = zone", "if _, ok := j.reverts[id]; ok", "> return", "j.reverts[id] = 0"]
+def journalDelete : List String := ["if j == nil", "> return", "if _, ok := j.reverts[id]; ok", "> return", "j.reverts[id] = zone"]
+def offerCommit : List String := ["if !o.IsValid()", "> return 0, nil, fmt.Errorf(…)", "o.a.validateState(\"pre-Commit\")", "range o.updates", "> if id == o.req.ID()", "> > o.a.zoneAssign(zone, o.req)", "> > o.a.requests[o.req.ID()] = o.req", "> else", "> > req, ok := o.a.requests[id]", "> > if ok", "> > > o.a.zoneMove(zone, req)", "> > > req.zone = zone", "o.a.invalidateOffers()", "return o.NodeMask(), o.Updates(), nil"]
+def offerCommitDefers : List String := ["defer o.a.validateState(\"post-Commit\")", "defer o.a.DumpState()", "defer o.a.cleanupUnusedZones()"]
+def handleOvercommit : List String := ["oc, spill := a.checkOvercommit(nodes)", "if len(oc) == 0", "> return nil", "if a.custom.HandleOvercommit != nil", "> return a.custom.HandleOvercommit(spill, &customAllocator{a})", "else", "> return a.defaultHandleOvercommit(nodes, oc, spill)"]
+def resolveOvercommit : List String := ["for", "> a.dumpOvercommit(\"- resolving overcommit for zones:\", oc, spill)", "> moved := int64(0)", "> range allowedPrios", "> > types := TypeMask(0)", "> > range expandTypes", "> > > if extra != 0", "> > > > extra &= a.masks.types", "> > > > if extra == 0", "> > > > > continue", "> > > > types |= extra", "> > > range oc", "> > > > if !ok", "> > > > > continue", "> > > > m := a.zoneShrinkUsage(z, amount, prio, types)", "> > > > moved += m", "> > > if oc, spill = a.checkOvercommit(nodes); len(oc) == 0", "> > > > return nil", "> if moved == 0", "> > break", "range spill", "return fmt.Errorf(…)"]
+def cleanup : List String := ["range a.zones", "> if len(zone.users) == 0", "> > delete(a.zones, z)"]
+def zoneAssign : List String := ["z, ok := a.zones[zone]", "if !ok", "> z = &Zone{ nodes: zone, types: a.zoneType(zone), capacity: a.zoneCapacity(zone), users: map[string]*Request{}, }", "> a.zones[zone] = z", "z.users[req.ID()] = req", "a.users[req.ID()] = zone", "req.zone = zone", "a.journal.assign(zone, req.ID())"]
+def zoneRemove : List String := ["z, ok := a.zones[zone]", "if !ok", "> return", "req, ok := z.users[id]", "if !ok", "> return", "delete(z.users, req.ID())", "delete(a.users, req.ID())", "a.journal.delete(zone, id)", "req.zone = 0"]
+def zoneMove : List String := ["if from, ok := a.users[req.ID()]; ok", "> if from == zone", "> > return", "> a.zoneRemove(from, req.ID())", "a.zoneAssign(zone, req)"]
+def zoneShrinkUsage : List String := ["if !ok || len(z.users) == 0", "> return 0", "nodes, types := a.expand(zone, z.types|extra)", "if nodes == 0", "> return 0", "moved := int64(0)", "range SortRequests(z.users, RequestsWithMaxPriority(limit), RequestsByPriority, RequestsBySize, RequestsByAge, )", "> if !req.IsStrict() || req.Types() == z.types|types", "> > a.zoneMove(zone|nodes, req)", "> > moved += req.Size()", "> > if moved >= amount", "> > > break", "return moved"]
+end Nri.LibMem.Expectgen_libmem_skeletons_ok
+
+namespace Nri.LibMem
+
+/-- regenerated statement skeletons of libmem's transactional core (GetOffer/Allocate/Realloc/Release, allocate/realloc/release with their deferred revert and clean-up calls, journal start/commit/revert, journal.assign/delete, Offer.Commit, overcommit handling and zoneShrinkUsage, zoneAssign/Remove/Move) equal the shapes the functional port in Model/LibMem.lean was written against; a rewrite of any of them - harmless or not - breaks this obligation and sends the check to the correspondence run for a failing input -/
+theorem gen_libmem_skeletons_ok :
+    Nri.Gen.LibmemSkel.getOffer = Expectgen_libmem_skeletons_ok.getOffer ∧
+    Nri.Gen.LibmemSkel.getOfferDefers = Expectgen_libmem_skeletons_ok.getOfferDefers ∧
+    Nri.Gen.LibmemSkel.allocatePub = Expectgen_libmem_skeletons_ok.allocatePub ∧
+    Nri.Gen.LibmemSkel.allocatePubDefers = Expectgen_libmem_skeletons_ok.allocatePubDefers ∧
+    Nri.Gen.LibmemSkel.reallocPub = Expectgen_libmem_skeletons_ok.reallocPub ∧
+    Nri.Gen.LibmemSkel.reallocPubDefers = Expectgen_libmem_skeletons_ok.reallocPubDefers ∧
+    Nri.Gen.LibmemSkel.releasePub = Expectgen_libmem_skeletons_ok.releasePub ∧
+    Nri.Gen.LibmemSkel.releasePubDefers = Expectgen_libmem_skeletons_ok.releasePubDefers ∧
+    Nri.Gen.LibmemSkel.allocate = Expectgen_libmem_skeletons_ok.allocate ∧
+    Nri.Gen.LibmemSkel.allocateDefers = Expectgen_libmem_skeletons_ok.allocateDefers ∧
+    Nri.Gen.LibmemSkel.realloc = Expectgen_libmem_skeletons_ok.realloc ∧
+    Nri.Gen.LibmemSkel.reallocDefers = Expectgen_libmem_skeletons_ok.reallocDefers ∧
+    Nri.Gen.LibmemSkel.release = Expectgen_libmem_skeletons_ok.release ∧
+    Nri.Gen.LibmemSkel.startJournal = Expectgen_libmem_skeletons_ok.startJournal ∧
+    Nri.Gen.LibmemSkel.commitJournal = Expectgen_libmem_skeletons_ok.commitJournal ∧
+    Nri.Gen.LibmemSkel.revertJournal = Expectgen_libmem_skeletons_ok.revertJournal ∧
+    Nri.Gen.LibmemSkel.journalAssign = Expectgen_libmem_skeletons_ok.journalAssign ∧
+    Nri.Gen.LibmemSkel.journalDelete = Expectgen_libmem_skeletons_ok.journalDelete ∧
+    Nri.Gen.LibmemSkel.offerCommit = Expectgen_libmem_skeletons_ok.offerCommit ∧
+    Nri.Gen.LibmemSkel.offerCommitDefers = Expectgen_libmem_skeletons_ok.offerCommitDefers ∧
+    Nri.Gen.LibmemSkel.handleOvercommit = Expectgen_libmem_skeletons_ok.handleOvercommit ∧
+    Nri.Gen.LibmemSkel.resolveOvercommit = Expectgen_libmem_skeletons_ok.resolveOvercommit ∧
+    Nri.Gen.LibmemSkel.cleanup = Expectgen_libmem_skeletons_ok.cleanup ∧
+    Nri.Gen.LibmemSkel.zoneAssign = Expectgen_libmem_skeletons_ok.zoneAssign ∧
+    Nri.Gen.LibmemSkel.zoneRemove = Expectgen_libmem_skeletons_ok.zoneRemove ∧
+    Nri.Gen.LibmemSkel.zoneMove = Expectgen_libmem_skeletons_ok.zoneMove ∧
+    Nri.Gen.LibmemSkel.zoneShrinkUsage = Expectgen_libmem_skeletons_ok.zoneShrinkUsage := by
+  and_intros <;> rfl
 
 end Nri.LibMem
